@@ -15,6 +15,7 @@ type shape struct {
 	unwind, updating, patternPredicate, varLenNamedRel, varLen, multiDelete, labelsFn, with bool
 	repeatedNodeVar, relationshipMatch, optionalAfterWith                                   bool
 	leadingUnwind, shortest, optionalMatch, withScalarAlias                                 bool
+	matchClauses                                                                            int
 	readingClauses                                                                          int
 }
 
@@ -25,6 +26,7 @@ func shapeOf(q *cypher.RegularQuery) shape {
 		case *cypher.Unwind:
 			s.unwind = true
 		case *cypher.Match:
+			s.matchClauses++
 			if t.Optional {
 				s.optionalMatch = true
 			}
@@ -112,12 +114,14 @@ func classOf(issue string, s shape) string {
 		return "field-of-array:variable-length-relationship-variable-used-as-one-relationship"
 	case s.multiDelete:
 		return issue + ":delete-with-several-targets"
+	case s.leadingUnwind && s.varLen:
+		return issue + ":query-starts-with-unwind-before-variable-length-match"
+	case s.leadingUnwind && s.updating && s.matchClauses == 0:
+		return issue + ":query-starts-with-unwind-directly-followed-by-updating-clause"
 	case s.unwind && s.updating:
 		return issue + ":unwind-followed-by-updating-clause"
 	case s.patternPredicate && issue != "field-of-non-composite":
 		return issue + ":pattern-predicate-placed-outside-its-frame"
-	case s.leadingUnwind && s.varLen:
-		return issue + ":query-starts-with-unwind-before-variable-length-match"
 	case s.unwind && s.with && s.shortest:
 		return issue + ":unwind-after-WITH-before-shortest-path-match"
 	case s.unwind && s.with && s.optionalMatch && issue == "unknown-column":
